@@ -12,12 +12,19 @@ import (
 	"fmt"
 	"path/filepath"
 
+	"github.com/q191201771/lal/pkg/base"
 	"github.com/q191201771/lal/pkg/httpflv"
 )
 
 // startRecordFlvIfNeeded 必要时开启flv录制
 func (group *Group) startRecordFlvIfNeeded(nowUnix int64) {
 	if !group.config.RecordConfig.EnableFlv {
+		return
+	}
+
+	if !base.IsStreamNameSafeAsPathItem(group.streamName) {
+		Log.Errorf("[%s] record flv disabled for this stream, stream name can not be used as a file name. streamName=%s",
+			group.UniqueKey, group.streamName)
 		return
 	}
 
